@@ -612,9 +612,51 @@ fn extreme_clutter(rng: &mut Rng) -> Vec<u8> {
     }
 }
 
+/// A run of 2..=6 fixed frames of one type whose headers claim to be segments of a larger message,
+/// with counts and numbers from a small hostile domain: "1 of 2" followed by "3 of 3", "0 of 0",
+/// "2 of 1", a continuation without an opening segment, a count that changes mid-message ...
+/// Each header is well formed on its own; only the sequence is inconsistent.
+fn segment_sequence(rng: &mut Rng) -> Vec<u8> {
+    let code = *rng.pick(&[15u8, 15, 15, 13, 18, 3, 5, 2, 1, 33]);
+    let dom: [u16; 9] = [0, 1, 2, 3, 4, 5, 6, 255, 65535];
+    let mut out = Vec::new();
+    let n = rng.urange(2, 6);
+    let mut count = *rng.pick(&dom);
+    for k in 0..n {
+        let mut h = MsgHeader::realistic(rng, code);
+        if rng.chance(1, 3) {
+            count = *rng.pick(&dom);
+        }
+        h.seg_count = count;
+        h.seg_num = match rng.below(4) {
+            0 => (k + 1) as u16,
+            1 => 1,
+            _ => *rng.pick(&dom),
+        };
+        if rng.chance(1, 8) {
+            h.size = *rng.pick(&[0u16, 1, 16, 1216, 0xFFFE]);
+        }
+        let body = match code {
+            15 => {
+                // a plausible clutter-map fragment: header + a few azimuths
+                let map = enc::ClutterMap { date: rng.u16(), minutes: rng.u16(), segments: vec![(0..360).map(|_| vec![(rng.below(3) as u16, rng.u16()); rng.clone().usize_below(3)]).collect()] };
+                let mut b = map.encode();
+                b.truncate(enc::FRAME_BODY);
+                b
+            }
+            _ => rng.bytes(64),
+        };
+        out.extend_from_slice(&enc::frame(&h, &body, 0));
+    }
+    out
+}
+
 pub fn gen_input(rng: &mut Rng) -> (Vec<u8>, &'static str) {
     if rng.chance(1, 40) {
         return (repeated_pointers31(rng), "repeated-pointers-type31");
+    }
+    if rng.chance(1, 12) {
+        return (segment_sequence(rng), "segment-sequence");
     }
     match rng.below(10) {
         0 => {
@@ -667,7 +709,7 @@ pub fn run(ctx: &mut Ctx) {
         println!("replay: recorded input was abbreviated; re-running the whole seeded workload");
     }
     ctx.rule = "a case is one byte string run through every decoding entry point (stream, header, type-31, RDA status, VCP, clutter map, contents of sampled or all 256 type codes; bodies also at offset 28) and, for every type-31 that decodes, radial()/into_radial(); \
-trivial = shorter than a message header; distinct = distinct input contents (FNV-1a); families: prefixes of valid streams/bodies, 1-8 bit/byte/field mutations biased to headers, field-directed extremes (block count 0/65535, pointers backwards/overlapping/self-referential/beyond end, 40-symbol and invalid-UTF-8 block names, gates 65535, word size 0..255, cut count 52..65535, zone count 65535, 255+ segments), random bytes; \
+trivial = shorter than a message header; distinct = distinct input contents (FNV-1a); families: prefixes of valid streams/bodies, 1-8 bit/byte/field mutations biased to headers, field-directed extremes (block count 0/65535, pointers backwards/overlapping/self-referential/beyond end, 40-symbol and invalid-UTF-8 block names, gates 65535, word size 0..255, cut count 52..65535, zone count 65535, 255+ segments), runs of fixed frames whose segment count/number fields are mutually inconsistent, random bytes; \
 verdict monitors: panic hook, reader work <= 64*(plain-walk work + n) + 1 MiB (termination as bounded progress), allocator peak <= 64 MiB + 64*n"
         .into();
     ctx.assumptions = vec![
